@@ -494,6 +494,10 @@ def _writes_through(P, cg, g, pi, seen=None):
                     and n.c[0].strip().get("d") not in roots and _rooted(n.c[1], roots):
                 roots.add(n.c[0].strip().get("d"))
                 changed = True
+    # `*flag = true` and nothing else: every worker stores the same constant into a scalar (the monotone flag of
+    # C07.1, reached through a pointer because the loop body became a helper) - not a conflicting write
+    flag_consts = set()
+    other = None
     for n in g.body.walk():
         tgt = None
         if is_assign(n):
@@ -508,7 +512,15 @@ def _writes_through(P, cg, g, pi, seen=None):
                     if inner.k == "DeclRefExpr":
                         continue
                 if _rooted(t.c[0], roots):
-                    return "%s:%d `%s`" % (P.rel(g.file), n.l, src(n)[:50])
+                    if t.k == "UnaryOperator" and t.op == "*" and is_assign(n) and n.op == "=" and n.c[1].cv is not None \
+                            and t.c[0].strip_casts().k == "DeclRefExpr" and "*" not in (t.t or ""):
+                        flag_consts.add(n.c[1].cv)
+                        continue
+                    other = other or "%s:%d `%s`" % (P.rel(g.file), n.l, src(n)[:50])
+    if other:
+        return other
+    if len(flag_consts) > 1:
+        return "%s: stores different constants %s through the pointer" % (P.rel(g.file), sorted(flag_consts))
     for c in g.calls():
         for ai, a in enumerate(c.args()):
             if a is None or "*" not in (a.t or "") or not _rooted(a, roots):
